@@ -52,12 +52,18 @@ def compileWF (cfg : Cfg) (al : Bool) : Fields → Bool
     (!(isVoid ty && bits.isNone) || !(Fields.names rest).contains name) &&
     compileWF cfg al rest
 
-/-- the plan `harness/srcplan.py` extracts from the source the real compiler generates for `sampleFields` of
-    `Proofs/Spec/C03.lean` today (`samplePlan` there predates the fix that makes the generator seek after a nested
-    structure: it lacks the `seek 16`) -/
-def samplePlanNow : Plan :=
-  [.bits "a" 3 .self, .align 1, .bits "b" 4 .self, .bitsReset, .seek 4,
-   .block 4 (some "I") [⟨"c", .data1 0, .init, 4⟩], .seek 8, .sub "s", .seek 16,
-   .block 7 (some "2H3x") [⟨"d", .dataN 0 2, .initArray, 4⟩, ⟨"e", .buf 4 7, .parse, 3⟩], .alignCls]
+/-- aligned `struct { uint16 a:3; uint16 b:4; void v; uint32 c; }`: `b` continues the unit of `a`, so the generator emits
+    the alignment statement in front of it, forgets its tracked offset and seeks in front of the next placed member, which
+    is the void member `v` here -/
+def contFields : Fields :=
+  .cons "a" false (.sc (.pint 2 false) 2) (some 3)
+  (.cons "b" false (.sc (.pint 2 false) 2) (some 4)
+  (.cons "v" false (.sc .void 0) none
+  (.cons "c" false (.sc (.pint 4 false) 4) none .nil)))
+
+/-- the plan of the source the (fixed) compiler generates for `contFields` -/
+def contPlan : Plan :=
+  [.bits "a" 3 .self, .align 2, .bits "b" 4 .self, .bitsReset, .seek 2,
+   .block 6 (some "2xI") [⟨"c", .data1 0, .init, 4⟩], .alignCls]
 
 end Cstruct.Compiler
